@@ -116,14 +116,14 @@ func (g *gateCtl) hasArrived(key string) bool {
 // ---------------------------------------------------------------- in-memory tree
 
 type vnode struct {
-	name    string
-	isDir   bool
-	link    string // symlink target ("" = not a symlink)
-	data    []byte
-	mode    os.FileMode
-	mtime   time.Time
-	uid     uint32
-	gid     uint32
+	name  string
+	isDir bool
+	link  string // symlink target ("" = not a symlink)
+	data  []byte
+	mode  os.FileMode
+	mtime time.Time
+	uid   uint32
+	gid   uint32
 }
 
 func (n *vnode) Name() string { return n.name }
@@ -152,19 +152,27 @@ func (n *vnode) info(name string) os.FileInfo {
 
 // vfs implements all handler interfaces; which optional ones are visible is decided by the wrapper types below.
 type vfs struct {
-	calls  int64 // number of handler / object method invocations (atomic)
-	mu     sync.Mutex
-	nodes  map[string]*vnode // absolute clean path -> node
-	tr     *tracer
-	gate   *gateCtl
-	nobj   int
-	objs   []*vobj
-	failAt map[string]error // "R:<off>" / "W:<off>" / "open:<path>" / "cmd:<method>" / "list:<path>" -> error to return
+	quiet      bool
+	calls      int64 // number of handler / object method invocations (atomic)
+	mu         sync.Mutex
+	nodes      map[string]*vnode // absolute clean path -> node
+	tr         *tracer
+	gate       *gateCtl
+	nobj       int
+	objs       []*vobj
+	failAt     map[string]error                                           // "R:<off>" / "W:<off>" / "open:<path>" / "cmd:<method>" / "list:<path>" -> error to return
 	listScript func(obj *vobj, dst []os.FileInfo, off int64) (int, error) // optional scripted ListAt
 	readHook   func(obj *vobj, p []byte, off int64) (int, error, bool)    // optional override
 	realpath   func(string) (string, error)
 	statvfs    *StatVFS
 	epoch      time.Time
+}
+
+// ev logs a handler-level event unless the session is quiet (stream tests only need the final object report).
+func (v *vfs) ev(name string, f kv) {
+	if !v.quiet {
+		v.tr.emit(name, f)
+	}
 }
 
 func newVfs(tr *tracer, gate *gateCtl) *vfs {
@@ -212,18 +220,18 @@ func (v *vfs) snapshot() map[string]string {
 
 // vobj is one reader / writer / readwriter / lister handed to the server.
 type vobj struct {
-	v       *vfs
-	id      int
-	kind    string // "Get" "Put" "Open" "List"
-	path    string
-	node    *vnode
-	ctx     context.Context
-	mu      sync.Mutex
-	inflt   int
-	closed  int
-	terr    int
-	ents    []os.FileInfo // for listers
-	tag     int           // set by the harness: the (small integer) handle this object belongs to
+	v      *vfs
+	id     int
+	kind   string // "Get" "Put" "Open" "List"
+	path   string
+	node   *vnode
+	ctx    context.Context
+	mu     sync.Mutex
+	inflt  int
+	closed int
+	terr   int
+	ents   []os.FileInfo // for listers
+	tag    int           // set by the harness: the (small integer) handle this object belongs to
 }
 
 func (v *vfs) newObj(kind, p string, n *vnode, r *Request) *vobj {
@@ -255,13 +263,13 @@ func (o *vobj) begin(rw string, off int64, n int) {
 	atomic.AddInt64(&o.v.calls, 1)
 	o.mu.Lock()
 	o.inflt++
-	o.v.tr.emit("OpBegin", kv{"obj": o.id, "rw": rw, "off": int(off), "len": n, "closed": o.closed})
+	o.v.ev("OpBegin", kv{"obj": o.id, "rw": rw, "off": int(off), "len": n, "closed": o.closed})
 	o.mu.Unlock()
 }
 func (o *vobj) end(rw string, off int64, n int, err error) {
 	o.mu.Lock()
 	o.inflt--
-	o.v.tr.emit("OpEnd", kv{"obj": o.id, "rw": rw, "off": int(off), "n": n, "err": errStr(err)})
+	o.v.ev("OpEnd", kv{"obj": o.id, "rw": rw, "off": int(off), "n": n, "err": errStr(err)})
 	o.mu.Unlock()
 }
 
@@ -329,7 +337,7 @@ func (o *vobj) WriteAt(p []byte, off int64) (int, error) {
 func (o *vobj) Close() error {
 	o.mu.Lock()
 	o.closed++
-	o.v.tr.emit("ObjClose", kv{"obj": o.id, "kind": o.kind, "inflight": o.inflt, "nclose": o.closed})
+	o.v.ev("ObjClose", kv{"obj": o.id, "kind": o.kind, "inflight": o.inflt, "nclose": o.closed})
 	o.mu.Unlock()
 	return nil
 }
@@ -337,7 +345,7 @@ func (o *vobj) Close() error {
 func (o *vobj) TransferError(err error) {
 	o.mu.Lock()
 	o.terr++
-	o.v.tr.emit("ObjTErr", kv{"obj": o.id, "err": errStr(err), "closed": o.closed})
+	o.v.ev("ObjTErr", kv{"obj": o.id, "err": errStr(err), "closed": o.closed})
 	o.mu.Unlock()
 }
 
@@ -345,7 +353,7 @@ func (o *vobj) ListAt(dst []os.FileInfo, off int64) (int, error) {
 	atomic.AddInt64(&o.v.calls, 1)
 	o.mu.Lock()
 	o.inflt++
-	o.v.tr.emit("OpBegin", kv{"obj": o.id, "rw": "L", "off": int(off), "len": len(dst), "closed": o.closed})
+	o.v.ev("OpBegin", kv{"obj": o.id, "rw": "L", "off": int(off), "len": len(dst), "closed": o.closed})
 	o.mu.Unlock()
 	o.v.gate.pass("L:" + itoa(o.id))
 	var n int
@@ -364,7 +372,7 @@ func (o *vobj) ListAt(dst []os.FileInfo, off int64) (int, error) {
 	}
 	o.mu.Lock()
 	o.inflt--
-	o.v.tr.emit("OpEnd", kv{"obj": o.id, "rw": "L", "off": int(off), "n": n, "err": errStr(err)})
+	o.v.ev("OpEnd", kv{"obj": o.id, "rw": "L", "off": int(off), "n": n, "err": errStr(err)})
 	o.mu.Unlock()
 	return n, err
 }
@@ -411,7 +419,7 @@ func (v *vfs) logReq(h string, r *Request) {
 	if fs := r.Attributes(); fs != nil {
 		st = kv{"size": int(fs.Size & 0x7fffffff), "uid": int(fs.UID & 0x7fffffff), "gid": int(fs.GID & 0x7fffffff), "mode": int(fs.Mode & 0x7fffffff), "atime": int(fs.Atime & 0x7fffffff), "mtime": int(fs.Mtime & 0x7fffffff)}
 	}
-	v.tr.emit("Handler", kv{"h": h, "method": r.Method, "path": r.Filepath, "target": r.Target, "flags": fl & 0x7fffffff,
+	v.ev("Handler", kv{"h": h, "method": r.Method, "path": r.Filepath, "target": r.Target, "flags": fl & 0x7fffffff,
 		"pf": kv{"r": f.Read, "w": f.Write, "a": f.Append, "c": f.Creat, "t": f.Trunc, "e": f.Excl},
 		"af": kv{"size": a.Size, "uidgid": a.UidGid, "perm": a.Permissions, "time": a.Acmodtime}, "attrs": st})
 }
@@ -433,7 +441,7 @@ func (v *vfs) Fileread(r *Request) (io.ReaderAt, error) {
 		return nil, syscall.EISDIR
 	}
 	o := v.newObj("Get", r.Filepath, n, r)
-	v.tr.emit("ObjOpen", kv{"obj": o.id, "kind": "Get", "path": r.Filepath})
+	v.ev("ObjOpen", kv{"obj": o.id, "kind": "Get", "path": r.Filepath})
 	return o, nil
 }
 
@@ -469,7 +477,7 @@ func (v *vfs) openForWrite(r *Request, kind string) (*vobj, error) {
 	}
 	v.mu.Unlock()
 	o := v.newObj(kind, r.Filepath, n, r)
-	v.tr.emit("ObjOpen", kv{"obj": o.id, "kind": kind, "path": r.Filepath})
+	v.ev("ObjOpen", kv{"obj": o.id, "kind": kind, "path": r.Filepath})
 	return o, nil
 }
 
@@ -508,6 +516,9 @@ func (v *vfs) Filecmd(r *Request) error {
 		}
 		af := r.AttrFlags()
 		at := r.Attributes()
+		if at == nil { // attribute block shorter than its flags announce
+			return syscall.EINVAL
+		}
 		if af.Size && !n.isDir {
 			nd := make([]byte, at.Size)
 			copy(nd, n.data)
@@ -661,7 +672,7 @@ func (v *vfs) listing(r *Request, h string, follow bool) (ListerAt, error) {
 	if r.Method == "List" {
 		o := v.newObj("List", r.Filepath, n, r)
 		o.ents = ents
-		v.tr.emit("ObjOpen", kv{"obj": o.id, "kind": "List", "path": r.Filepath})
+		v.ev("ObjOpen", kv{"obj": o.id, "kind": "List", "path": r.Filepath})
 		return o, nil
 	}
 	// Stat-like listers are not closed by the server (no handle): a plain lister without Close, not registered
@@ -684,14 +695,14 @@ func (p plainLister) ListAt(dst []os.FileInfo, off int64) (int, error) {
 func (v *vfs) Filelist(r *Request) (ListerAt, error) { return v.listing(r, "Filelist", true) }
 func (v *vfs) Lstat(r *Request) (ListerAt, error)    { return v.listing(r, "Lstat", false) }
 func (v *vfs) RealPath(p string) (string, error) {
-	v.tr.emit("Handler", kv{"h": "RealPath", "method": "RealPath", "path": p, "target": "", "flags": 0})
+	v.ev("Handler", kv{"h": "RealPath", "method": "RealPath", "path": p, "target": "", "flags": 0})
 	if v.realpath != nil {
 		return v.realpath(p)
 	}
 	return cleanPath(p), nil
 }
 func (v *vfs) Readlink(p string) (string, error) {
-	v.tr.emit("Handler", kv{"h": "Readlink", "method": "Readlink", "path": p, "target": "", "flags": 0})
+	v.ev("Handler", kv{"h": "Readlink", "method": "Readlink", "path": p, "target": "", "flags": 0})
 	if e := v.fail("readlink:" + p); e != nil {
 		return "", e
 	}
@@ -715,7 +726,7 @@ func (p putBasic) Filewrite(r *Request) (io.WriterAt, error) { return p.v.Filewr
 
 type putOpen struct{ v *vfs }
 
-func (p putOpen) Filewrite(r *Request) (io.WriterAt, error)       { return p.v.Filewrite(r) }
+func (p putOpen) Filewrite(r *Request) (io.WriterAt, error)     { return p.v.Filewrite(r) }
 func (p putOpen) OpenFile(r *Request) (WriterAtReaderAt, error) { return p.v.OpenFile(r) }
 
 type cmdBasic struct{ v *vfs }
@@ -729,13 +740,13 @@ func (c cmdPosix) PosixRename(r *Request) error { return c.v.PosixRename(r) }
 
 type cmdVFS struct{ v *vfs }
 
-func (c cmdVFS) Filecmd(r *Request) error               { return c.v.Filecmd(r) }
+func (c cmdVFS) Filecmd(r *Request) error             { return c.v.Filecmd(r) }
 func (c cmdVFS) StatVFS(r *Request) (*StatVFS, error) { return c.v.StatVFS(r) }
 
 type cmdBoth struct{ v *vfs }
 
-func (c cmdBoth) Filecmd(r *Request) error               { return c.v.Filecmd(r) }
-func (c cmdBoth) PosixRename(r *Request) error           { return c.v.PosixRename(r) }
+func (c cmdBoth) Filecmd(r *Request) error             { return c.v.Filecmd(r) }
+func (c cmdBoth) PosixRename(r *Request) error         { return c.v.PosixRename(r) }
 func (c cmdBoth) StatVFS(r *Request) (*StatVFS, error) { return c.v.StatVFS(r) }
 
 type listBasic struct{ v *vfs }
@@ -770,7 +781,8 @@ func (l listAll) RealPath(p string) (string, error)     { return l.v.RealPath(p)
 func (l listAll) Readlink(p string) (string, error)     { return l.v.Readlink(p) }
 
 // handlers builds a Handlers value; opt is a set of letters:
-//   o OpenFileWriter, p PosixRename, v StatVFS, l Lstat, r RealPath, g legacy RealPath, k Readlink
+//
+//	o OpenFileWriter, p PosixRename, v StatVFS, l Lstat, r RealPath, g legacy RealPath, k Readlink
 func (v *vfs) handlers(opt string) Handlers {
 	has := func(c byte) bool {
 		for i := 0; i < len(opt); i++ {
